@@ -51,7 +51,7 @@ func (c *countCtx) polls() int {
 	return c.n
 }
 
-var stubNames = []string{"probe", "id", "probe2", "probe3", "vprobe", "fv", "typed", "typed2", "vtyped", "boom", "zero", "two", "eachcb", "callcb0", "cbv", "panicwith", "panicctx"}
+var stubNames = []string{"probe", "id", "probe2", "probe3", "vprobe", "fv", "typed", "typed2", "vtyped", "boom", "zero", "two", "eachcb", "callcb0", "cbv", "panicwith", "panicctx", "wantsptr", "wantsptr2", "wantsstr", "wantsints"}
 
 // vmResult is one run of a parsed program on the real interpreter.
 type vmResult struct {
@@ -119,6 +119,11 @@ func defineStubs(e *env.Env, tr func(interface{})) {
 	}))
 	must(e.Define("callcb0", func(cb func()) { cb() }))
 	must(e.Define("cbv", func(cb func(interface{}) interface{}, x interface{}) interface{} { return cb(x) }))
+	// host functions whose parameter type most arguments do not convert to: the argument is still evaluated exactly once
+	must(e.Define("wantsptr", func(p *int64) int64 { return 0 }))
+	must(e.Define("wantsptr2", func(a interface{}, p *int64) int64 { return 0 }))
+	must(e.Define("wantsstr", func(s struct{ A int }) int64 { return 0 }))
+	must(e.Define("wantsints", func(xs []int64, c chan int64) int64 { return 0 }))
 	must(e.Define("zero", func() {}))
 	must(e.Define("two", func() (interface{}, interface{}) { return int64(1), "two" }))
 }
